@@ -10,7 +10,7 @@ pub struct Shell { pub exit_on_error: bool, pub previous_status: i32 }
 
 // ---- pest parse tree, reduced to what the runners look at: the text of a node, its rule, its children (all uninterpreted) ----
 #[derive(PartialEq, Eq, Structural, Clone, Copy)]
-pub enum Rule { CMD, EXP_IF, EXP_FOR, EXP_WHILE, EXP_BODY, FOR_HEAD, IF_HEAD, IF_ELSEIF_HEAD, WHILE_HEAD, KW_ELSE, OTHER }
+pub enum Rule { CMD, EXP_IF, EXP_FOR, EXP_WHILE, EXP_BODY, FOR_HEAD, FOR_INIT, FOR_VAR, TEST, IF_HEAD, IF_ELSEIF_HEAD, WHILE_HEAD, KW_ELSE, OTHER }
 pub struct VxPair { pub id: int }
 pub uninterp spec fn pair_text(p: VxPair) -> Seq<char>;
 pub uninterp spec fn pair_rule(p: VxPair) -> Rule;
@@ -194,28 +194,99 @@ impl Shell {
 }
 #[verifier::external_body]
 pub fn get_for_var_name(pair_head: VxPair) -> (r: String) { unimplemented!() }
-// the words of a `for` head: a function of the head node and of the argument vector it is given (and of the shell state: left out, the clause below only compares argument vectors)
+// ---- the words of a `for` head (C14: "for binds each word of its list in order"): the TEST children of its FOR_INIT child are expanded (positional parameters,
+// then the other expansions: expand_line_to_toknes below); an unquoted token gives its blank-separated words, a quoted token is one word as it stands ----
+pub uninterp spec fn spec_split_ws(t: Seq<char>) -> Seq<Seq<char>>;
+#[verifier::external_body]
+pub fn vx_split_ws(t: &String) -> (r: Vec<String>) ensures strs(r@) == spec_split_ws(t@) { unimplemented!() }
+pub open spec fn strs(v: Seq<String>) -> Seq<Seq<char>> { v.map_values(|x: String| x@) }
+pub open spec fn tok_words(t: (String, String)) -> Seq<Seq<char>> { if t.0@.len() == 0 { spec_split_ws(t.1@) } else { seq![t.1@] } }
+pub open spec fn toks_words(ts: Seq<(String, String)>, n: int) -> Seq<Seq<char>>
+    decreases n
+{
+    if n <= 0 { Seq::empty() } else { toks_words(ts, n - 1) + tok_words(ts[n - 1]) }
+}
+pub proof fn lemma_lists_words_prefix(a: Seq<Seq<(String, String)>>, b: Seq<Seq<(String, String)>>, n: int)
+    requires 0 <= n <= b.len(), b.len() <= a.len(), forall|k: int| 0 <= k < n ==> a[k] == b[k]
+    ensures lists_words(a, n) == lists_words(b, n)
+    decreases n
+{
+    if n > 0 { lemma_lists_words_prefix(a, b, n - 1); }
+}
+// what the expansion of the list made of each TEST child, in order (recorded where the token lists are obtained)
+pub ghost struct WordLog { pub lists: Seq<Seq<(String, String)>>, pub lines: Seq<Seq<char>>, pub args: Seq<Seq<String>>, pub node: Option<VxPair> }
+#[verifier::external_body]
+pub proof fn new_wordlog() -> (tracked r: WordLog) ensures r.lists.len() == 0, r.lines.len() == 0, r.args.len() == 0, r.node.is_none() { unimplemented!() }
+#[verifier::external_body]
+pub proof fn note_init_node(tracked wl: &mut WordLog, p: VxPair)
+    ensures final(wl).lists == old(wl).lists, final(wl).lines == old(wl).lines, final(wl).args == old(wl).args, final(wl).node == Some(p)
+{ unimplemented!() }
+#[verifier::external_body]
+pub proof fn note_list(tracked wl: &mut WordLog, line: Seq<char>, args: Seq<String>, ts: Seq<(String, String)>)
+    ensures final(wl).lists == old(wl).lists.push(ts), final(wl).lines == old(wl).lines.push(line), final(wl).args == old(wl).args.push(args), final(wl).node == old(wl).node
+{ unimplemented!() }
+pub open spec fn lists_words(ls: Seq<Seq<(String, String)>>, n: int) -> Seq<Seq<char>>
+    decreases n
+{
+    if n <= 0 { Seq::empty() } else { lists_words(ls, n - 1) + toks_words(ls[n - 1], ls[n - 1].len() as int) }
+}
+// the TEST children among the first n children of the FOR_INIT node: their trimmed texts
+pub open spec fn test_lines(ch: Seq<VxPair>, n: int) -> Seq<Seq<char>>
+    decreases n
+{
+    if n <= 0 { Seq::empty() } else if pair_rule(ch[n - 1]) == Rule::TEST { test_lines(ch, n - 1).push(spec_trim(pair_text(ch[n - 1]))) } else { test_lines(ch, n - 1) }
+}
+// the first node with a given rule among the first n children
+pub open spec fn first_of(ch: Seq<VxPair>, r: Rule, n: int) -> Option<VxPair>
+    decreases n
+{
+    if n <= 0 { None } else { match first_of(ch, r, n - 1) { Some(p) => Some(p), None => if pair_rule(ch[n - 1]) == r { Some(ch[n - 1]) } else { None } } }
+}
+pub proof fn lemma_first_of_stays(ch: Seq<VxPair>, r: Rule, i: int, n: int)
+    requires 0 <= i <= n, first_of(ch, r, i).is_some()
+    ensures first_of(ch, r, n) == first_of(ch, r, i)
+    decreases n
+{
+    if n > i { lemma_first_of_stays(ch, r, i, n - 1); }
+}
+// the variable of a for head: the trimmed text of the first FOR_VAR child of its first FOR_INIT child
+pub open spec fn var_of_init(init: VxPair) -> Option<Seq<char>> {
+    match first_of(pair_children(init), Rule::FOR_VAR, pair_children(init).len() as int) { Some(v) => Some(spec_trim(pair_text(v))), None => None }
+}
+pub open spec fn for_var_of(head: VxPair) -> Option<Seq<char>> {
+    match first_of(pair_children(head), Rule::FOR_INIT, pair_children(head).len() as int) { Some(init) => var_of_init(init), None => None }
+}
+// the words a head yields: uninterpreted at the call site in run_exp_for (the clause there compares argument vectors); get_for_result_list is verified below against the lists it obtained
 pub uninterp spec fn for_words(head: VxPair, args: Seq<String>) -> Seq<String>;
 #[verifier::external_body]
 pub fn get_for_result_list(sh: &mut Shell, pair_head: VxPair, args: &[String]) -> (r: Vec<String>) ensures r@ == for_words(pair_head, args@) { unimplemented!() }
+#[verifier::external_body]
+pub fn vx_tail_slice(args: &[String]) -> (r: &[String]) requires args@.len() >= 1 ensures r@ == args@.skip(1) { &args[1..] }
+#[verifier::external_body]
+pub fn vx_clone_tok(t: &(String, String)) -> (r: (String, String)) ensures r.0@ == t.0@, r.1@ == t.1@ { t.clone() }
+#[verifier::external_body]
+pub fn vx_clone_string(t: &String) -> (r: String) ensures r@ == t@ { t.clone() }
 #[verifier::external_body]
 pub fn vx_args_slice(args: &Vec<String>) -> (r: &[String]) ensures r@ == args@ { args.as_slice() }
 
 // ---- expand_line_to_toknes: the passes over the words of a `for` head, in the order they are applied ----
 pub struct LineInfo { pub tokens: Vec<(String, String)>, pub is_complete: bool }
+// the stand-ins record what they are given: the line that is tokenized, the arguments of the positional-parameter pass
+pub ghost struct PassLog { pub passes: Seq<int>, pub line: Seq<char>, pub args: Seq<String> }
 #[verifier::external_body]
-pub fn parse_line(line: &str) -> (r: LineInfo) { unimplemented!() }
-pub ghost struct PassLog { pub passes: Seq<int> }
+pub fn parse_line(line: &str, Tracked(pl): Tracked<&mut PassLog>) -> (r: LineInfo)
+    ensures final(pl).passes == old(pl).passes, final(pl).line == line@, final(pl).args == old(pl).args
+{ unimplemented!() }
 #[verifier::external_body]
 pub proof fn new_passlog() -> (tracked r: PassLog) ensures r.passes.len() == 0 { unimplemented!() }
 // pass 1: positional parameters ($0 $1 .. $@) -- contract in U-ARGS;  pass 2: every other expansion -- contracts in U-EXP1..3
 #[verifier::external_body]
 pub fn expand_args_in_tokens(tokens: &mut Vec<(String, String)>, args: &[String], Tracked(pl): Tracked<&mut PassLog>)
-    ensures final(pl).passes == old(pl).passes.push(1int)
+    ensures final(pl).passes == old(pl).passes.push(1int), final(pl).line == old(pl).line, final(pl).args == args@
 { unimplemented!() }
 #[verifier::external_body]
 pub fn do_expansion(sh: &mut Shell, tokens: &mut Vec<(String, String)>, Tracked(pl): Tracked<&mut PassLog>)
-    ensures final(pl).passes == old(pl).passes.push(2int)
+    ensures final(pl).passes == old(pl).passes.push(2int), final(pl).line == old(pl).line, final(pl).args == old(pl).args
 { unimplemented!() }
 #[verifier::external_body]
 pub fn run_exp_test_br(sh: &mut Shell, pair_br: VxPair, args: &Vec<String>, in_loop: bool, capture: bool, Tracked(il): Tracked<&mut IfLog>) -> (r: (Vec<CommandResult>, bool, bool, bool))
@@ -339,6 +410,9 @@ pub open spec fn frun(lines: Seq<String>, n: int) -> FState
 //@FN run_exp_if_real
 //@FN run_exp_for_real
 //@FN expand_line_to_toknes
+//@FN get_for_result_from_init
+//@FN get_for_result_list_real
+//@FN get_for_var_name_real
 //@FN run_lines
 ''' + common.TAIL
 
@@ -552,9 +626,70 @@ exp_for = Fn(S, 'run_exp_for', rename='run_exp_for_real', ret='r',
 for_words = Fn(S, 'expand_line_to_toknes', ret='r',
     pre_rewrites=RW + [Rw('parsers::parser_line::parse_line(', 'parse_line(', rule='R0'), Rw('shell::do_expansion(', 'do_expansion(', rule='R0'), Rw('types::Tokens', 'Vec<(String, String)>', rule='R0')],
     add_params='Tracked(pl): Tracked<&mut PassLog>',
-    ghost_args={'expand_args_in_tokens': 'Tracked(pl)', 'do_expansion': 'Tracked(pl)'},
+    ghost_args={'expand_args_in_tokens': 'Tracked(pl)', 'do_expansion': 'Tracked(pl)', 'parse_line': 'Tracked(pl)'},
     requires=[('C15.pre.for_words.fresh_log', 'old(pl).passes.len() == 0')],
-    ensures=[('C10+C15.for_words.positional_parameters_first_then_the_other_expansions_each_once', 'final(pl).passes == seq![1int, 2int]')],
+    ensures=[('C10+C15.for_words.positional_parameters_first_then_the_other_expansions_each_once', 'final(pl).passes == seq![1int, 2int]'),
+             ('C10+C14+C15.for_words.the_line_given_is_tokenized_and_the_arguments_given_are_those_of_the_positional_pass', 'final(pl).line == line@ && final(pl).args == args@')],
+)
+from_init = Fn(S, 'get_for_result_from_init', ret='r', props=('C14', 'C15'),
+    pre_rewrites=[Rw('&args[1..]', 'vx_tail_slice(args)', rule='R12', required=False, why='slice from index 1: requires at least the script / function name in args'),
+                  Rw('token.split_whitespace()', 'vx_split_ws(&token)', rule='R11', why='str::split_whitespace through a shim: the blank-separated words of a text, in order (uninterpreted)'),
+                  Rw('result.push(x.to_string());', 'result.push(x);', rule='R12', why='the word is already an owned String behind the shim')] + RW,
+    add_params='Tracked(wl): Tracked<&mut WordLog>',
+    ghost_args={'expand_line_to_toknes': 'Tracked(&mut pl)'},
+    requires=[('C05.pre.from_init.args', 'args@.len() >= 1'), ('C14.pre.from_init.fresh_log', 'old(wl).lists.len() == 0 && old(wl).lines.len() == 0 && old(wl).args.len() == 0')],
+    let_types={'result': 'Vec<String>'},
+    loop_kinds={0: 'value', (0, 'clone'): 'vx_clone_pair(&{})', 1: 'value', (1, 'clone'): 'vx_clone_tok(&{})', 2: 'value', (2, 'clone'): 'vx_clone_string(&{})'},
+    ensures=[
+        # the list is made of the TEST children of the node, in order, each expanded with the caller's arguments without the name in front
+        ('C14.for_words.the_list_is_read_from_the_test_children_in_order_with_the_callers_arguments',
+         'final(wl).lines == test_lines(pair_children(pair_init), pair_children(pair_init).len() as int) && final(wl).lists.len() == final(wl).lines.len() '
+         '&& forall|k: int| 0 <= k < final(wl).args.len() ==> (#[trigger] final(wl).args[k]) == args@.skip(1)'),
+        # every token of the expanded list gives its words in order: an unquoted one its blank-separated words, a quoted one itself
+        ('C14.for_words.an_unquoted_token_gives_its_blank_separated_words_a_quoted_token_is_one_word_all_in_order',
+         'strs(r@) == lists_words(final(wl).lists, final(wl).lists.len() as int) && final(wl).node == Some(pair_init)'),
+    ],
+    loops={0: Loop(invariant=[('C14.inv.from_init.outer', 'wl.node == Some(pair_init) && args@.len() >= 1 && __v0@ == pair_children(pair_init) && wl.lines =~= test_lines(__v0@, __i0 as int) && wl.lists.len() == wl.lines.len() && wl.args.len() == wl.lines.len() '
+                                                          '&& (forall|k: int| 0 <= k < wl.args.len() ==> (#[trigger] wl.args[k]) == args@.skip(1)) && strs(result@) =~= lists_words(wl.lists, wl.lists.len() as int)')]),
+           1: Loop(invariant=[('C14.inv.from_init.tokens', 'args@.len() >= 1 && __v1@ == g_toks && strs(result@) =~= g_before + toks_words(g_toks, __i1 as int)')]),
+           2: Loop(invariant=[('C14.inv.from_init.split', 'strs(__v2@) == spec_split_ws(token@) && strs(result@) =~= g_before + toks_words(g_toks, __i1 - 1) + strs(__v2@).subrange(0, __i2 as int) && __i1 >= 1 && sep@.len() == 0 '
+                                                          '&& sep@ == g_toks[__i1 - 1].0@ && token@ == g_toks[__i1 - 1].1@ && args@.len() >= 1 && __v1@ == g_toks && __i1 <= g_toks.len()')])},
+    hints={'fn-entry': 'note_init_node(wl, pair_init);', 'before-call:expand_line_to_toknes': 'RAW: let tracked mut pl = new_passlog();',
+           'after-call:expand_line_to_toknes': 'RAW: let ghost g_toks = tokens@; let ghost g_before = strs(result@); let ghost g_lists0 = wl.lists; proof { note_list(wl, pl.line, pl.args, tokens@); '
+                                               'assert(wl.lists.drop_last() =~= g_lists0); assert(test_lines(__v0@, __i0 as int) =~= test_lines(__v0@, __i0 - 1).push(line@)); }',
+           'loop-1-exit': 'assert(wl.lists.last() == g_toks); assert(lists_words(wl.lists, wl.lists.len() as int) =~= lists_words(wl.lists, wl.lists.len() - 1) + toks_words(g_toks, g_toks.len() as int)); '
+                          'assert(lists_words(wl.lists, wl.lists.len() - 1) =~= lists_words(g_lists0, g_lists0.len() as int)) by { lemma_lists_words_prefix(wl.lists, g_lists0, g_lists0.len() as int); }',
+           'loop-2-exit': 'assert(strs(__v2@).subrange(0, __v2@.len() as int) =~= strs(__v2@)); assert(toks_words(g_toks, __i1 as int) =~= toks_words(g_toks, __i1 - 1) + spec_split_ws(token@));',
+           'before-text:result.push(token.clone());': 'RAW: let ghost g_r1 = strs(result@);',
+           'after-text:result.push(token.clone());': 'assert(strs(result@) =~= g_r1.push(token@)); assert(toks_words(g_toks, __i1 as int) =~= toks_words(g_toks, __i1 - 1) + seq![token@]);',
+           'before-text:result.push(x);': 'RAW: let ghost g_r0 = strs(result@); let ghost g_x = x@;',
+           'after-text:result.push(x);': 'assert(strs(result@) =~= g_r0.push(g_x)); assert(strs(__v2@)[__i2 - 1] == g_x); assert(strs(__v2@).subrange(0, __i2 as int) =~= strs(__v2@).subrange(0, __i2 - 1).push(g_x));'},
+)
+result_list = Fn(S, 'get_for_result_list', rename='get_for_result_list_real', ret='r', props=('C14', 'C15'), pre_rewrites=RW,
+    add_params='Tracked(wl): Tracked<&mut WordLog>',
+    ghost_args={'get_for_result_from_init': 'Tracked(wl)'},
+    requires=[('C05.pre.result_list.args', 'args@.len() >= 1'), ('C14.pre.result_list.fresh_log', 'old(wl).lists.len() == 0 && old(wl).lines.len() == 0 && old(wl).args.len() == 0 && old(wl).node.is_none()')],
+    loop_kinds={0: 'value', (0, 'clone'): 'vx_clone_pair(&{})'},
+    ensures=[('C14.for_words.the_list_of_a_for_head_is_that_of_its_first_init_child_and_empty_without_one',
+              'final(wl).node == first_of(pair_children(pair_head), Rule::FOR_INIT, pair_children(pair_head).len() as int) '
+              '&& (final(wl).node.is_none() ==> r@.len() == 0) && strs(r@) == lists_words(final(wl).lists, final(wl).lists.len() as int) '
+              '&& forall|k: int| 0 <= k < final(wl).args.len() ==> (#[trigger] final(wl).args[k]) == args@.skip(1)')],
+    loops={0: Loop(invariant=[('C14.inv.result_list.no_init_so_far', 'args@.len() >= 1 && __v0@ == pair_children(pair_head) && first_of(__v0@, Rule::FOR_INIT, __i0 as int).is_none() '
+                                                                     '&& wl.lists.len() == 0 && wl.lines.len() == 0 && wl.args.len() == 0 && wl.node.is_none()')])},
+    hints={'before-call:get_for_result_from_init': 'lemma_first_of_stays(__v0@, Rule::FOR_INIT, __i0 as int, __v0@.len() as int);',
+           'loop-0-exit': 'assert(strs(Seq::<String>::empty()) =~= Seq::<Seq<char>>::empty());'},
+)
+var_name = Fn(S, 'get_for_var_name', rename='get_for_var_name_real', ret='r', props=('C14', 'C15'), pre_rewrites=RW,
+    loop_kinds={0: 'value', (0, 'clone'): 'vx_clone_pair(&{})', 1: 'value', (1, 'clone'): 'vx_clone_pair(&{})'},
+    ensures=[('C14.for_var.the_first_var_node_of_the_first_init_child_names_the_variable',
+              'for_var_of(pair_head).is_some() ==> r@ == for_var_of(pair_head).unwrap()')],
+    loops={0: Loop(invariant=[('C14.inv.for_var.outer', '__v0@ == pair_children(pair_head) && (first_of(__v0@, Rule::FOR_INIT, __i0 as int).is_some() ==> var_of_init(first_of(__v0@, Rule::FOR_INIT, __i0 as int).unwrap()).is_none())')]),
+           1: Loop(invariant=[('C14.inv.for_var.inner', '__v0@ == pair_children(pair_head) && __i0 >= 1 && __i0 <= __v0@.len() && pair == __v0@[__i0 - 1] && pair_rule(pair) == Rule::FOR_INIT && __v1@ == pair_children(pair) '
+                                                        '&& first_of(__v1@, Rule::FOR_VAR, __i1 as int).is_none() '
+                                                        '&& (first_of(__v0@, Rule::FOR_INIT, __i0 - 1).is_some() ==> var_of_init(first_of(__v0@, Rule::FOR_INIT, __i0 - 1).unwrap()).is_none())')])},
+    hints={'before-text:return vx_s(&line);': 'lemma_first_of_stays(__v1@, Rule::FOR_VAR, __i1 as int, __v1@.len() as int); '
+                                              'if first_of(__v0@, Rule::FOR_INIT, __i0 - 1).is_some() { lemma_first_of_stays(__v0@, Rule::FOR_INIT, __i0 - 1, __v0@.len() as int); } '
+                                              'else { lemma_first_of_stays(__v0@, Rule::FOR_INIT, __i0 as int, __v0@.len() as int); }'},
 )
 run_script = Fn(S, 'run_script', ret='r',
     pre_rewrites=[
@@ -584,12 +719,12 @@ run_script = Fn(S, 'run_script', ret='r',
            'before-text:sh.exit_on_error = exit_on_error_outer;': 'LABEL:C15.run_script.the_status_is_that_of_the_last_command_run: '
                                     'assert(status == (if cr_list@.len() > 0 { cr_list@.last().status } else { 0 }));'},
 )
-UNIT = Unit('U-SCRIPT', TEMPLATE, fns=[run_script, stopped_by_error, run_exp_while, run_exp, test_br, exp_if, exp_for, for_words, run_lines],
+UNIT = Unit('U-SCRIPT', TEMPLATE, fns=[run_script, stopped_by_error, run_exp_while, run_exp, test_br, exp_if, exp_for, for_words, from_init, result_list, var_name, run_lines],
             types=[TypeItem('src/types.rs', 'struct', 'CommandResult')], props=('C15', 'C14', 'C05'))
 TRUSTED = common.TRUSTED_STR + [
     'the pest parse tree is opaque: the text, rule and children of a node are uninterpreted (the grammar locust.pest is outside the verifier); '
     'which statements a script text consists of is exercised by the bounded script cases only',
-    'run_command_line, expand_args, get_for_var_name, get_for_result_list, without_trailing_comment (which text of a line is compared with the keywords break / continue) are external here (and run_exp_if / run_exp_for / run_exp_test_br at their call sites: callers see no contract of them, they are verified on their own): any results, any effect on the shell '
+    'run_command_line, expand_args, without_trailing_comment (which text of a line is compared with the keywords break / continue) are external here; get_for_var_name / get_for_result_list are external at their call site in run_exp_for and verified on their own (…_real: the first var node of the first init child; the words of the expanded test children, unquoted tokens split at blanks (str::split_whitespace uninterpreted), quoted ones whole, in order) (and run_exp_if / run_exp_for / run_exp_test_br at their call sites: callers see no contract of them, they are verified on their own): any results, any effect on the shell '
     '(run_command_line / expand_args have their own contracts in U-LIST / U-ARGS)',
     'args[0] is the script or function name (callers: run_script, try_run_func, source): assumed as precondition args.len() >= 1',
     'run_exp_while may run forever (a script loop): termination is not claimed for it',
